@@ -229,6 +229,98 @@ class Differential(Stage):
         return res
 
 
+class RealGdb(Stage):
+    """the same kind of closures through the *real* gdb on a generated C mock of libwayland (struct, member and
+    function names as in libwayland), with the unmodified Plugin/extract.py; result compared with the spec and
+    with the stand-in"""
+    name = 'real-gdb'
+
+    def examples(self, tier):
+        return 8 if tier == 'quick' else 14 * 40
+
+    def gen(self, d, tier):
+        steps = []
+        for _ in range(d.int(3, 12)):
+            if d.chance(0.1):
+                steps.append(dict(kind='destroy', conn=d.int(0, 2)))
+            else:
+                steps.append(gen_closure(d, max_args=20))
+        return dict(steps=steps)
+
+    def execute(self, case):
+        from .. import gdbreal, cli
+        res = Result()
+        steps = case['steps']
+        with cli.Scratch() as sc:
+            r = gdbreal.run_steps(steps, sc)
+        if r['status'].startswith('skipped'):
+            res.label('real-gdb-' + r['status'][:40])
+            return res
+        if r['status'] != 'ok':
+            from ..runner import HarnessError
+            raise HarnessError(r['status'])
+        recs = r['records']
+        if len(recs) != len(steps):
+            res.bad('real-gdb:breakpoint-hits', '%d breakpoint hits recorded for %d steps; gdb said %r' % (len(recs), len(steps), r.get('gdb_output', '')[-300:]))
+            return res
+        # stand-in on the same closures
+        G = gdbsim.install()
+        G.reset()
+        env.reset_globals(protocols=False)
+        from backends.gdb_plugin import extract
+        import importlib
+        importlib.reload(extract)
+        b = gdbsim.Builder(G)
+        conn_ids = {}
+        for k, (st, rec) in enumerate(zip(steps, recs)):
+            res.evals += 1
+            if st.get('kind') == 'destroy':
+                if rec['kind'] != 'destroy':
+                    res.bad('real-gdb:step-kind', 'step %d' % k)
+                cid = rec['conn']
+            else:
+                if rec['kind'] != 'msg':
+                    res.bad('real-gdb:step-kind', 'step %d' % k)
+                    continue
+                exp = [expected_arg(a, t) for a, t in zip(st['args'], st['types'])]
+                got = rec['args']
+                hdr_exp = [st['name'], st['sent'], st['sender_id'], None if st['sent'] else st['target_iface']]
+                hdr_got = [rec['name'], rec['sent'], rec['id'], rec['iface']]
+                if hdr_got != hdr_exp:
+                    res.bad('real-gdb:header', 'step %d: real gdb reports %r, closure holds %r' % (k, hdr_got, hdr_exp))
+                if json_norm(got) != json_norm(exp):
+                    res.bad('real-gdb:arguments', 'step %d signature %r: real gdb reports %r, closure holds %r' % (k, st['signature'], got, exp))
+                loc, frame = b.frames_for(st)
+                G.state.frame = frame
+                try:
+                    _, msg = (extract.sent_message if st['sent'] else extract.received_message)()
+                    sim = [describe(a) for a in msg.args]
+                    if json_norm(sim) != json_norm(got):
+                        res.bad('stand-in-differs-from-real-gdb', 'step %d signature %r: stand-in %r, real gdb %r' % (k, st['signature'], sim, got))
+                except Exception as e:
+                    res.bad('stand-in-differs-from-real-gdb', 'step %d: stand-in raised %s: %s, real gdb gave %r' % (k, type(e).__name__, e, got))
+                cid = rec['conn']
+            # same wl_connection <-> same connection id
+            prev = conn_ids.setdefault(st['conn'], cid)
+            if prev != cid or list(conn_ids.values()).count(cid) != 1:
+                res.bad('real-gdb:connection-id', 'step %d: connection index %d has id %r (ids so far %r)' % (k, st['conn'], cid, conn_ids))
+        res.nontrivial = any(classes(st, Result()) for st in steps if st.get('kind') != 'destroy')
+        res.label('real-gdb-ran')
+        res.sample = dict(steps=len(steps), first=steps[0])
+        return res
+
+
+def json_norm(x):
+    import json, math
+    def f(v):
+        if isinstance(v, float):
+            return 'nan' if math.isnan(v) else v
+        if isinstance(v, (list, tuple)):
+            return [f(i) for i in v]
+        return v
+    return json.dumps(f(x), sort_keys=True)
+
+
 class C09(Prop):
     id = 'C09'
     rule = ('closures: generated closures (signature over i u f s o n a h with optional version digits and ? markers, 0-20 arguments, every kind '
@@ -236,11 +328,12 @@ class C09(Prop):
             'sent/received) laid out in a symbolic stand-in for the gdb module with poisoned union members; extract.received_message()/'
             'sent_message() must report exactly what the closure holds (fixed = f/256). differential: generated well-formed histories delivered '
             'closure by closure through the real Plugin breakpoints (stand-in) and, as libwayland\'s print-out, through log mode; the two displays '
-            'must agree up to array contents and time-valued text. non-trivial = >= 2 arguments incl. an array or a null, or a signature with '
+            'must agree up to array contents and time-valued text. real-gdb: sequences of such closures compiled into a C mock of libwayland '
+            '(names as in libwayland) and run under the real gdb with the unmodified plugin; records compared with the spec and the stand-in. non-trivial = >= 2 arguments incl. an array or a null, or a signature with '
             'version digit/? / a history of >= 5 messages with object, new-id or array arguments; distinct by SHA-1 of the case.')
     assumptions = ['fakegdb models the gdb Python API symbolically; struct/field/frame names as in libwayland (extract.py addresses members by name)',
                    'real libwayland with debug symbols is not available in the sandbox']
-    stages = [Closures(), Differential()]
+    stages = [Closures(), Differential(), RealGdb()]
 
 
 gdbsim.install()
